@@ -228,8 +228,8 @@ def evaluator_terms(ctx):
             cur["x"] = arg_names(cl[name])[0]
             got = _nc_function(cl[name], {}, hook)
             ok, msg = got == w, "%s computes %r, expected %r" % (name, got, w)
-        except AnalysisError as e:
-            ok, msg = False, str(e)
+        except AnalysisError:
+            raise  # an expression the term algebra cannot read: cannot analyse, not a verdict
         r.check(ok, "make_default_scalar." + name, FA, "make_default_scalar", cl[name].lineno, "fmm term of " + name, msg)
     cl, fn = closures("make_scalar_hypersingular")
     curl = NC()
@@ -249,8 +249,8 @@ def evaluator_terms(ctx):
             cur["x"] = arg_names(cl[name])[0]
             got = _nc_function(cl[name], {}, hook)
             ok, msg = got == w, "%s computes %r, expected %r" % (name, got, w)
-        except AnalysisError as e:
-            ok, msg = False, str(e)
+        except AnalysisError:
+            raise  # an expression the term algebra cannot read: cannot analyse, not a verdict
         r.check(ok, "make_scalar_hypersingular." + name, FA, "make_scalar_hypersingular", cl[name].lineno, "fmm term of " + name, msg)
     # selection of the closure by identifier
     r2 = ctx.rule("FMM-DISPATCH", "every registered boundary assembly type has an FMM evaluator branch; closures are selected by the matching identifier", 3)
@@ -760,8 +760,8 @@ def maxwell_terms(ctx):
             try:
                 got = _ClosureEval(e2, Ec).run(cl)
                 ok, msg = isinstance(got, NC) and got == want and not problems, "%s (%s spaces) computes %r, expected %r%s" % (fname, variant, got, want, "; " + "; ".join(problems) if problems else "")
-            except AnalysisError as e:
-                ok, msg = False, str(e)
+            except AnalysisError:
+                raise  # an expression the term algebra cannot read: cannot analyse, not a verdict
             r.check(ok, "%s [%s spaces]" % (fname, variant), FA, fname, cl.lineno, "fmm term of %s (%s spaces)" % (fname, variant), msg)
     # ---- potentials
     for fname, kind in (("make_maxwell_electric_field_potential", "E"), ("make_maxwell_magnetic_field_potential", "H")):
@@ -783,8 +783,8 @@ def maxwell_terms(ctx):
             got = _ClosureEval(env, Ec).run(cl)
             ok = isinstance(got, _Comp) and len(got.cols) == 3 and all(g == w for g, w in zip(got.cols, want)) and not problems
             msg = "%s computes %r, expected %r" % (fname, got.cols if isinstance(got, _Comp) else got, want)
-        except AnalysisError as e:
-            ok, msg = False, str(e)
+        except AnalysisError:
+            raise  # an expression the term algebra cannot read: cannot analyse, not a verdict
         r.check(ok, fname, FA, fname, cl.lineno, "fmm term of " + fname, msg)
     # scalar potentials
     maker = m.fn("make_default_scalar_potential")
@@ -809,8 +809,8 @@ def maxwell_terms(ctx):
         try:
             got = _ClosureEval(env, Ec).run(cls[name])
             ok, msg = isinstance(got, NC) and got == w, "%s computes %r, expected %r" % (name, got, w)
-        except AnalysisError as e:
-            ok, msg = False, str(e)
+        except AnalysisError:
+            raise  # an expression the term algebra cannot read: cannot analyse, not a verdict
         r.check(ok, "make_default_scalar_potential." + name, FA, "make_default_scalar_potential", cls[name].lineno, "fmm term of potential " + name, msg)
 
 
